@@ -373,6 +373,15 @@ def bounded_volume(tier, seed):
             st.case(inp, nontrivial=True, sample=None)
             if r['reproduced']:
                 st.violation('volume-edge', r['detail'], 'verif.props.c08:replay_volume', inp)
+    # long thin cells with more than 256 and more than 65536 voxels along one axis (index types narrower than the grid would wrap)
+    for big, res_ in ((300, 1.0), (70000, 1.0)):
+        fr = [[[(k + 0.5) / big, 0.25, 0.75] for k in (0, 1, 255, 256, 257, big // 2, big - 2, big - 1)], [[(big - 1 + 0.25) / big, 0.75, 0.25]] * 8]
+        inp = {'explicit': True, 'lengths': [float(big), 2.0, 2.0], 'res': res_, 'positions': fr}
+        r = st.guard(replay_volume, inp)
+        if r is not None:
+            st.case(inp, nontrivial=True, sample=None)
+            if r['reproduced']:
+                st.violation('volume-long-axis', r['detail'], 'verif.props.c08:replay_volume', inp)
     fams = ['cubic', 'orthorhombic', 'hexagonal', 'monoclinic', 'triclinic']
     for c in range(n):
         fam = fams[c % 5]
